@@ -871,6 +871,43 @@ func (f *Frame) execMakeClosure(in *ssa.MakeClosure, st *State) {
 	}
 	c.eng.closures[id.S] = &closureVal{fn: fn, binds: binds, frame: f}
 	f.set(in, []Term{id})
+	// A closure verified as its own unit assumes its `requires` clauses about
+	// captured variables at entry; they are proved here, where the closure is
+	// created (for the values the captured variables have at this point).
+	if blk := c.eng.ld.ByFn[fn]; blk != nil && blk.ClosureOf != "" && !f.spec && len(blk.Pre) > 0 && blk.Flags["checked-requires"] {
+		var args [][]Term
+		for _, p := range fn.Params {
+			args = append(args, c.freshLeaves("clparam_"+p.Name(), p.Type()))
+		}
+		ok := true
+		for _, cn := range blk.Captures {
+			found := false
+			for i, fv := range fn.FreeVars {
+				if fv.Name() != cn || i >= len(binds) {
+					continue
+				}
+				found = true
+				if pt, isPtr := fv.Type().Underlying().(*types.Pointer); isPtr {
+					args = append(args, c.load(st, c.shapeOf(binds[i][0], fv.Type())))
+					_ = pt
+				} else {
+					args = append(args, binds[i])
+				}
+			}
+			if !found {
+				ok = false
+			}
+		}
+		if ok {
+			for _, cl := range blk.Pre {
+				if cl.Fn.Signature.Params().Len() != len(args) {
+					continue
+				}
+				t := c.evalSpecFn(cl.Fn, args, st, snapOf(st), f)[0]
+				c.addObl(&Obligation{Name: c.oblName(f.label, "pre@"+blk.QualName()), Kind: "pre@call", Fn: f.label, Pos: f.posOf(in.Pos()), Text: "requires " + cl.Text + "  [at creation of closure " + blk.QualName() + "]", Reach: st.Reach, Goal: t, Clause: cl})
+			}
+		}
+	}
 }
 
 type closureVal struct {
